@@ -48,6 +48,26 @@ def _collector_first_reads(name_of):
     return mk
 
 
+def _retry_then_gc_after(k):
+    """transaction 1 prepares its manifests on its base; transaction 2 then commits completely (so 1 will lose the race and retry);
+    1 goes on until it has passed k gated operations in total; then the WHOLE collection runs; then the rest"""
+    def mk(rng):
+        def choose(s, ready):
+            n1 = len([1 for a, _w in s.trace if a == 1])
+            prepared = any(a == 1 and w == "write_file manifest" for a, w in s.trace)
+            if not prepared and 1 in ready:
+                return 1
+            if 2 in ready:
+                return 2
+            if n1 < k and 1 in ready:
+                return 1
+            if 9 in ready:
+                return 9
+            return sorted(ready)[0]
+        return choose
+    return mk
+
+
 def run_case(ctx, rep, case, base, model_ok):
     rng = ctx.rng("case", case["id"])
     path = os.path.join(base, f"t{case['id']}")
@@ -183,6 +203,7 @@ def run_case(ctx, rep, case, base, model_ok):
                 rep.diverge("gcrace.trace deleted set", {"request": req, **case_rec}, sorted(mdel), sorted(gc_deleted))
         if case["id"] == 0:
             rep.sample({"trace": req, "reply": reply})
+    case["tx1_gates"] = len([1 for a, _w in S.trace if a == 1])
     shutil.rmtree(path, ignore_errors=True)
 
 
@@ -204,9 +225,24 @@ def run(ctx, model_ok):
     rep = Report()
     rep.rule = ("one real garbage_collect(grace 60 s) × 1–2 real append transactions (data files aged 2 h on a coin flip; 15 % roll back) "
                 "interleaved at storage-operation granularity; directed schedules placing the whole commit between the collector's two reads "
-                "first. Oracle: every file of every snapshot of the final metadata exists; correspondence: same deleted set as the model.")
+                "first, then a commit that loses an OCC race and retries with the WHOLE collection placed after each (quick: every 2nd) of its gated "
+                "operations. Oracle: every file of every snapshot of the final metadata exists; correspondence: same deleted set as the model.")
     base = scratch_dir("c06-")
     try:
+        # directed: a commit that loses the race and retries, with a whole collection placed after each of its gated operations
+        k, cid = 0, 100000
+        while True:
+            c = {"id": cid, "txs": 2, "aged": [True, True], "rollback": [False, False], "chooser": _retry_then_gc_after(k)}
+            cid += 1
+            try:
+                run_case(ctx, rep, c, base, model_ok)
+                rep.distribution["directed-retry-gc"] += 1
+            except sched.Stuck as e:
+                rep.notes.append(f"retry/gc case k={k} stuck: {e}")
+                break
+            if k >= c.get("tx1_gates", 0):
+                break
+            k += 1 if ctx.thorough else 2
         for c in cases(ctx):
             try:
                 run_case(ctx, rep, c, base, model_ok)
